@@ -313,11 +313,11 @@ def restore {N : Type} (o : Obj N) (p : Path) : Except Err (Obj N) :=
       | none => .ok o                                -- :219-220
       | some orig =>
         match rest with
-        | [] =>                                      -- :307-312: Empty when there is no entry
-          let oldV := match oGet? [f] orig with
-            | some w => w
-            | none => JValue.null
-          .ok { fields := dSet f oldV o.fields, original := some (orig.filter (fun e => !(e.1 = [f]))) }
+        | [] =>                                      -- :307-317
+          match oGet? [f] orig with
+          | none => .ok o                            -- :309-310 nothing to restore for an unmodified attribute
+          | some oldV =>
+            .ok { fields := dSet f oldV o.fields, original := some (orig.filter (fun e => !(e.1 = [f]))) }
         | k :: ks =>
           if isEmptyVal cur then .error .nonExistent                                           -- :229-230
           else
